@@ -10,10 +10,32 @@ import (
 // $spread / $sift over multi-member objects may come in any order (sanctioned by the
 // properties). For such programs outcomes are compared with arrays as multisets.
 func usesUnordered(expr string) bool {
-	for _, s := range []string{"*", "$keys", "$each", "$spread", "$sift", "$merge", "$lookup"} {
+	for _, s := range []string{"$keys", "$each", "$spread", "$sift", "$merge", "$lookup"} {
 		if strings.Contains(expr, s) {
 			return true
 		}
+	}
+	return hasWildcard(expr)
+}
+
+// hasWildcard: a * (or **) standing where an operand is expected (a multiplication has an
+// operand in front of it)
+func hasWildcard(expr string) bool {
+	prev := byte(0)
+	for i := 0; i < len(expr); i++ {
+		ch := expr[i]
+		if ch == ' ' || ch == '\t' || ch == '\n' || ch == '\r' {
+			continue
+		}
+		if ch == '*' {
+			if i+1 < len(expr) && expr[i+1] == '*' {
+				return true
+			}
+			if prev == 0 || strings.IndexByte(".([{,;:?|=<>&+-/%!~^", prev) >= 0 {
+				return true
+			}
+		}
+		prev = ch
 	}
 	return false
 }
